@@ -54,6 +54,7 @@ pub fn local_fns(inner: Inner, no_std: bool) -> String {
     pub const fn c_p_even(x: &{n}) -> bool {{ *x % 2 == 0 }}
     pub fn p_not7(x: &{n}) -> bool {{ *x != 7 }}
     pub fn v_small(x: &{n}) -> Result<(), CustomErr> {{ if *x > 10 {{ Err(CustomErr {{ code: 1 }}) }} else {{ Ok(()) }} }}
+    pub const fn c_v_small(x: &{n}) -> Result<(), CustomErr> {{ if *x > 10 {{ Err(CustomErr {{ code: 1 }}) }} else {{ Ok(()) }} }}
 }}
 "#
             )
@@ -92,7 +93,9 @@ pub fn local_fns(inner: Inner, no_std: bool) -> String {
 "#
         .to_string(),
         Inner::VecI32 => r#"pub mod fvec {
-    use super::*;
+    extern crate alloc;
+    use alloc::vec::Vec;
+    use super::CustomErr;
     pub fn s_sort(mut v: Vec<i32>) -> Vec<i32> { v.sort(); v }
     pub fn s_dedup(mut v: Vec<i32>) -> Vec<i32> { v.sort(); v.dedup(); v }
     pub fn s_push0(mut v: Vec<i32>) -> Vec<i32> { v.push(0); v }
@@ -153,8 +156,10 @@ pub fn unit_source(d: &Decl, no_std: bool, extra: &str) -> String {
     let mut o = String::new();
     o.push_str("#![allow(unused, non_snake_case, non_upper_case_globals, non_camel_case_types, clippy::all)]\n");
     o.push_str("use nutype::nutype;\nuse crate::prelude::*;\n");
-    if no_std {
-        o.push_str("use alloc::vec::Vec;\nuse alloc::vec;\nuse alloc::string::String;\nuse alloc::format;\n");
+    if no_std && d.inner == Inner::VecI32 {
+        // only what a no_std user must import to *write* the declaration; no `format!`, `vec!`, `String`
+        // in scope, so a generated use of those prelude items does not resolve by accident
+        o.push_str("use alloc::vec::Vec;\n");
     }
     o.push_str(&local_fns(d.inner, no_std));
     o.push_str(&const_prelude(d.inner));
@@ -172,7 +177,8 @@ pub fn unit_source(d: &Decl, no_std: bool, extra: &str) -> String {
             }
         }
     }
-    o.push_str(&d.decl_text());
+    let decl = if no_std { d.decl_text().replace("vec![", "alloc::vec![") } else { d.decl_text() };
+    o.push_str(&decl);
     o.push('\n');
     o.push_str(extra);
     o
@@ -221,7 +227,7 @@ const ALL: &[&str] = &["serde", "regex", "arbitrary", "new_unchecked"];
 
 /// Declarations of the documented grammar with injected faults, paired with the verdict of an
 /// independent predicate written from the README / property statement.
-pub fn c08_units(_seed: u64) -> Vec<Unit> {
+pub fn c08_units(seed: u64, thorough: bool) -> Vec<Unit> {
     let mut out: Vec<Unit> = vec![];
     let mut push = |class: &str, features: &[&str], inner: Inner, attr: &str, strukt: &str, expect: Expect, errs: &[&str]| {
         let (source, decl) = raw_unit(inner, attr, strukt, "");
@@ -473,6 +479,42 @@ pub fn c08_units(_seed: u64) -> Vec<Unit> {
         });
     }
 
+    // --- seed-dependent part: proptest-generated declarations of the documented grammar (accept side)
+    //     and the same declarations with exactly one injected fault (reject side)
+    let n_random = if thorough { 500 } else { 90 };
+    let rnd = catalogue::finalize(crate::random::random_decls(seed ^ 0xC08, n_random), "x");
+    for (i, d) in rnd.iter().enumerate() {
+        let mut d = d.clone();
+        d.type_name = "T".into();
+        let feats_all = feats(ALL);
+        out.push(Unit {
+            id: String::new(),
+            class: "random:valid".to_string(),
+            features: feats_all.clone(),
+            source: unit_source(&d, false, ""),
+            expect: Accept,
+            expect_errors: vec![],
+            tests_must_fail: vec![],
+            tests_must_pass: vec![],
+            decl: d.decl_text(),
+            nontrivial: d.sans.len() + d.std_vals().len() + d.derives.len() / 4 >= 3,
+        });
+        if let Some((fault, fd, features)) = inject_fault(&d, i) {
+            out.push(Unit {
+                id: String::new(),
+                class: format!("random:fault:{fault}"),
+                features,
+                source: unit_source(&fd, false, ""),
+                expect: Reject,
+                expect_errors: vec![],
+                tests_must_fail: vec![],
+                tests_must_pass: vec![],
+                decl: fd.decl_text(),
+                nontrivial: true,
+            });
+        }
+    }
+
     // --- expression-valued contradictions / invalid defaults: accepted, but the generated test must fail
     let mut tests = |class: &str, inner: Inner, attr: &str, strukt: &str, fail: &[&str], pass: &[&str]| {
         let (source, decl) = raw_unit(inner, attr, strukt, "");
@@ -514,6 +556,93 @@ pub fn c08_units(_seed: u64) -> Vec<Unit> {
         u.id = format!("u{:04}", i + 1);
     }
     out
+}
+
+/// inject exactly one fault that the documentation says must be refused; `k` rotates through the faults
+/// applicable to the declaration
+pub fn inject_fault(d: &Decl, k: usize) -> Option<(&'static str, Decl, Vec<String>)> {
+    let all = feats(ALL);
+    let mut cands: Vec<(&'static str, Decl, Vec<String>)> = vec![];
+    let has_val = d.has_validation();
+    let with = |f: &dyn Fn(&mut Decl)| {
+        let mut x = d.clone();
+        f(&mut x);
+        x
+    };
+    let add = |x: &mut Decl, t: Tr| {
+        if !x.derives.contains(&t) {
+            x.derives.push(t)
+        }
+    };
+    if has_val {
+        cands.push(("from-with-validation", with(&|x| { x.derives.retain(|t| *t != Tr::TryFrom); add(x, Tr::From) }), all.clone()));
+    } else {
+        cands.push(("from-and-tryfrom", with(&|x| { add(x, Tr::From); add(x, Tr::TryFrom) }), all.clone()));
+    }
+    if d.default.is_none() {
+        cands.push(("default-without-default", with(&|x| add(x, Tr::Default)), all.clone()));
+    }
+    if d.inner.is_float() && !d.std_vals().iter().any(|v| matches!(v, ValSpec::Finite)) {
+        cands.push(("float-eq-without-finite", with(&|x| { add(x, Tr::PartialEq); add(x, Tr::Eq) }), all.clone()));
+        cands.push(("float-ord-without-finite", with(&|x| { add(x, Tr::PartialEq); add(x, Tr::Eq); add(x, Tr::PartialOrd); add(x, Tr::Ord) }), all.clone()));
+    }
+    if d.inner.is_float() {
+        cands.push(("hash-on-float", with(&|x| add(x, Tr::Hash)), all.clone()));
+    }
+    if d.inner == Inner::Str {
+        cands.push(("lowercase+uppercase", with(&|x| {
+            x.sans.retain(|s| !matches!(s, SanSpec::Lower | SanSpec::Upper));
+            x.sans.push(SanSpec::Lower);
+            x.sans.insert(0, SanSpec::Upper);
+        }), all.clone()));
+        cands.push(("duplicate-trim", with(&|x| { x.sans.retain(|s| !matches!(s, SanSpec::Trim)); x.sans.push(SanSpec::Trim); x.sans.insert(0, SanSpec::Trim) }), all.clone()));
+        cands.push(("copy-on-string", with(&|x| { add(x, Tr::Clone); add(x, Tr::Copy) }), all.clone()));
+        if !matches!(d.vals, Vals::Custom(_)) {
+            cands.push(("len-crossing", with(&|x| {
+                let mut v: Vec<ValSpec> = x.std_vals().iter().filter(|v| !matches!(v, ValSpec::LenCharMin(_) | ValSpec::LenCharMax(_))).cloned().collect();
+                v.push(ValSpec::LenCharMax(catalogue::lit_u(2)));
+                v.insert(0, ValSpec::LenCharMin(catalogue::lit_u(9)));
+                x.vals = Vals::Std(v);
+                x.derives.retain(|t| *t != Tr::From);
+            }), all.clone()));
+        }
+    }
+    if d.inner.is_int() || d.inner.is_float() {
+        let fl = d.inner.is_float();
+        if !matches!(d.vals, Vals::Custom(_)) {
+            cands.push(("bounds-crossing", with(&|x| {
+                let mut v: Vec<ValSpec> = x.std_vals().iter().filter(|v| v.bound().is_none()).cloned().collect();
+                let (lo, hi) = if fl { (catalogue::lit_f(9.5), catalogue::lit_f(2.5)) } else { (catalogue::lit_i(9), catalogue::lit_i(2)) };
+                v.push(ValSpec::LessEq(hi));
+                v.insert(0, ValSpec::GreaterEq(lo));
+                x.vals = Vals::Std(v);
+                x.derives.retain(|t| *t != Tr::From);
+            }), all.clone()));
+            cands.push(("duplicate-validator", with(&|x| {
+                let mut v: Vec<ValSpec> = x.std_vals().iter().filter(|v| !matches!(v, ValSpec::Less(_))).cloned().collect();
+                let (a, b) = if fl { (catalogue::lit_f(90.0), catalogue::lit_f(91.0)) } else { (catalogue::lit_i(90), catalogue::lit_i(91)) };
+                v.push(ValSpec::Less(a));
+                v.push(ValSpec::Less(b));
+                x.vals = Vals::Std(v);
+                x.derives.retain(|t| *t != Tr::From);
+            }), all.clone()));
+        }
+        cands.push(("intoiterator-on-number", with(&|x| add(x, Tr::IntoIterator)), all.clone()));
+    }
+    if d.has(Tr::Serialize) || d.has(Tr::Deserialize) {
+        cands.push(("serde-without-feature", d.clone(), feats(&["regex", "arbitrary", "new_unchecked"])));
+    }
+    if d.has(Tr::Arbitrary) {
+        cands.push(("arbitrary-without-feature", d.clone(), feats(&["serde", "regex", "new_unchecked"])));
+    }
+    if d.new_unchecked {
+        cands.push(("new_unchecked-without-feature", d.clone(), feats(&["serde", "regex", "arbitrary"])));
+    }
+    if cands.is_empty() {
+        return None;
+    }
+    let n = cands.len();
+    Some(cands.swap_remove(k % n))
 }
 
 // ------------------------------------------------------------------------------------ C05
@@ -681,7 +810,7 @@ pub fn c05_units() -> Vec<Unit> {
 // ------------------------------------------------------------------------------------ C15
 
 /// int / float / other declarations of the run-time catalogue, rendered for a `#![no_std]` crate
-pub fn c15_units(_seed: u64) -> Vec<Unit> {
+pub fn c15_units(seed: u64, thorough: bool) -> Vec<Unit> {
     let cat = catalogue::finalize(catalogue::catalogue(), "n");
     let mut out = vec![];
     for d in cat.iter() {
@@ -711,6 +840,31 @@ pub fn c15_units(_seed: u64) -> Vec<Unit> {
                 feats(&["serde"])
             } else {
                 feats(&[])
+            },
+            source: unit_source(&d, true, ""),
+            expect: Expect::Accept,
+            expect_errors: vec![],
+            tests_must_fail: vec![],
+            tests_must_pass: vec![],
+            decl: d.decl_text(),
+            nontrivial: irregular >= 1,
+        });
+    }
+    // seed-dependent random declarations (non-string families)
+    let rnd = catalogue::finalize(crate::random::random_decls(seed ^ 0xC15, if thorough { 800 } else { 160 }), "m");
+    for d in rnd.iter().filter(|d| d.inner != Inner::Str) {
+        let mut d = d.clone();
+        d.type_name = "T".into();
+        let irregular = d.derives.iter().filter(|t| !matches!(t, Tr::Debug | Tr::Clone | Tr::Copy | Tr::PartialEq | Tr::PartialOrd | Tr::Hash)).count();
+        out.push(Unit {
+            id: String::new(),
+            class: "no_std:random".into(),
+            features: {
+                let mut f: Vec<&str> = if d.has(Tr::Arbitrary) { vec!["serde", "arbitrary"] } else if d.has(Tr::Serialize) || d.has(Tr::Deserialize) { vec!["serde"] } else { vec![] };
+                if d.new_unchecked {
+                    f.push("new_unchecked");
+                }
+                feats(&f)
             },
             source: unit_source(&d, true, ""),
             expect: Expect::Accept,
